@@ -36,7 +36,11 @@ func init() { register(c09{}) }
 func (c09) ID() string    { return "C09" }
 func (c09) Level() string { return "exploration" }
 func (c09) Rule() string {
-	return "two case families. (lossless) two in-process authors edit concurrently (C01 alphabet + undo/redo, so that restore spans, " +
+	return "three case families. (rpc) on the live server an activated, attached hostile client posts structurally mutated change " +
+		"packs (cleared/duplicated fields, extreme numbers) by raw HTTP to PushPullChanges: every request must be answered (a " +
+		"dropped connection = panicking handler and a timeout = hang are violations), a client of another document must be " +
+		"unaffected; what an ACCEPTED hostile change does to healthy clients of the same document is identified as recorded " +
+		"finding F-HOSTILE-CHANGE-STORED. (lossless) two in-process authors edit concurrently (C01 alphabet + undo/redo, so that restore spans, " +
 		"re-tombstoning, split tickets, moves, styles, dedup counters occur) and exchange changes; every change is delivered to " +
 		"three follower documents through three channels - the in-memory change objects (never serialised), the protobuf wire " +
 		"codec (ToChangePack -> bytes -> FromChangePack), and the storage codec (database.NewFromChange -> ToChange) - and a " +
@@ -64,7 +68,7 @@ func (c09) NumCases(tier string, _ int64) int {
 }
 func (c09) Exhaustive(string) bool { return false }
 func (c09) Floors(string) []runner.Floor {
-	return []runner.Floor{{Stat: "changes_delivered_3_ways", Min: 20000}, {Stat: "hostile_inputs", Min: 200000}, {Stat: "snapshot_forks", Min: 1000}}
+	return []runner.Floor{{Stat: "changes_delivered_3_ways", Min: 20000}, {Stat: "hostile_inputs", Min: 200000}, {Stat: "snapshot_forks", Min: 1000}, {Stat: "hostile_packs_sent_to_server", Min: 1000}}
 }
 
 type c09Worker struct {
@@ -1099,7 +1103,9 @@ func truncBytes(b []byte, n int) []byte {
 
 func (w *c09Worker) Run(idx int) runner.CaseResult {
 	res := runner.CaseResult{Case: fmt.Sprintf("c09-%d", idx)}
-	if idx%4 == 3 {
+	if idx%16 == 15 {
+		w.runRPC(&res, idx)
+	} else if idx%4 == 3 {
 		w.runHostile(&res, idx, w.seed)
 	} else {
 		w.runLossless(&res, idx, w.seed, nil)
@@ -1126,7 +1132,12 @@ func (w *c09Worker) Replay(data json.RawMessage) runner.CaseResult {
 		}
 		return res
 	}
-	if rp.Family == "hostile" {
+	if rp.Family == "rpc" {
+		old := w.seed
+		w.seed = rp.Seed
+		w.runRPC(&res, rp.Idx)
+		w.seed = old
+	} else if rp.Family == "hostile" {
 		w.runHostile(&res, rp.Idx, rp.Seed)
 	} else {
 		w.runLossless(&res, rp.Idx, rp.Seed, &rp)
